@@ -30,7 +30,7 @@ func Registry() []*Spec {
 	add(Spec{Property: "C03", Name: "VerifC03_Templates", Pkg: "asm",
 		Quick: map[string]int{}, Thorough: map[string]int{},
 		Covers: []string{"valid", "invalid"}, UnitDepth: 3,
-		Note: "15 JSON skeletons (7..17 bytes: strings, keys, escapes, literals, numbers with fraction and exponent, nesting) with free symbolic bytes at the marked places, delivered whole / byte by byte / split at every position: all JSON front-ends vs oj.Parse, and - for valid JSON - sen.Parse vs sen.ParseReader vs sen.Tokenizer(+Load); SEN-only input is outside"})
+		Note: "15 JSON skeletons (7..17 bytes: strings, keys, escapes, literals, numbers with fraction and exponent, nesting) with free symbolic bytes at the marked places, delivered whole / byte by byte / split at every position: all JSON front-ends vs oj.Parse, and (on every such input, JSON or SEN-only) sen.Parse vs sen.ParseReader vs sen.Tokenizer{OnlyOne}.Parse/.Load + Builder"})
 	// ---- C05: Get returns exactly what the path denotes
 	add(Spec{Property: "C05", Name: "VerifC05_Get", Pkg: "jp",
 		Quick: map[string]int{"B": 5, "STEP": 3}, Thorough: map[string]int{"FULL": 1, "B": 7, "STEP": 4},
@@ -109,7 +109,7 @@ func Registry() []*Spec {
 	add(Spec{Property: "C17", Name: "VerifC17_Match", Pkg: "asm",
 		Quick: map[string]int{"NT": 1, "SPLIT": 0}, Thorough: map[string]int{"NT": 2, "SPLIT": 1},
 		Covers: []string{"some", "none"}, UnitDepth: 5,
-		Note: "oj.Match and oj.MatchLoad (1-byte reads, one symbolic split point) on 4 concrete document skeletons (depth <= 3) with symbolic digit leaves and 1..2 targets from 9 shapes (child, index, wildcard, descent, union, nested) with symbolic indexes in [0,4]: the callback sequence equals the outermost locations of the reference selector on the parsed document, in document order, with equal values"})
+		Note: "oj.Match and oj.MatchLoad (1-byte reads, one symbolic split point) on 5 concrete document skeletons (depth <= 3) with symbolic digit leaves and 1..NT targets from 12 shapes (child, index, negative index, wildcard, descent, union, slice, nested, trailing filter @.x > c) with symbolic indexes in [0,4]: the callback sequence equals the outermost locations of the reference selector on the parsed document, in document order, with equal values"})
 	// ---- C18: generic / simple conversions
 	add(Spec{Property: "C18", Name: "VerifC18_Convert", Pkg: "asm",
 		Quick: map[string]int{}, Thorough: map[string]int{},
